@@ -93,6 +93,9 @@ func phaseOf(n int) int {
 	return 0
 }
 
+// FrameKind names the SHIP message type of a frame.
+func FrameKind(s string) string { return frameKind(s) }
+
 func frameKind(s string) string {
 	switch {
 	case strings.Contains(s, `"connectionClose"`):
